@@ -336,11 +336,17 @@ def K2(F, rep, R, classes=None):
 
 
 # ---------------------------------------------------------------------- writes of fields inside a method, per path
-def field_write_events(evs, fields):
-    """indices of events that modify one of the given members of *this*"""
+def field_write_events(evs, fields, helper_writes=None):
+    """indices of events that modify one of the given members of *this* (directly, or inside a helper method of the same
+    object whose transitive write set is given in helper_writes: callee name -> set of members)"""
     out = []
     for i, e in enumerate(evs):
         n = e.get('n')
+        if helper_writes and e['ev'] == 'call' and n.get('ck') == 'member' and n.get('callee') in helper_writes:
+            o = strip_all_casts(n.get('obj'))
+            if isinstance(o, dict) and o.get('k') == 'This':
+                for f in sorted(helper_writes[n['callee']] & set(fields)):
+                    out.append((i, f))
         if e['ev'] == 'assign':
             tgt = None
             if n.get('k') == 'Bin':
@@ -373,6 +379,22 @@ def K3(F, rep, R, FL, ws, classes=None):
         A = w['fn']
         cv = w['cv']
         stages = [s for s, c in R.stages.items() if c == cls]
+        # transitive write sets of the class's methods (a private helper that moves a position counts for its callers)
+        g_all, _, _ = guarded_fields(F, cls)
+        hw = {}
+        meths = methods_of(F, cls)
+        for m_ in meths:
+            hw[m_['name']] = {f for f in g_all if writes_fields(m_, {f})}
+        changed = True
+        while changed:
+            changed = False
+            for m_ in meths:
+                for n_ in walk(m_['body'], into_lambda=False):
+                    if n_.get('k') == 'Call' and n_.get('ck') == 'member' and n_.get('callee') in hw and n_.get('callee') != m_['name']:
+                        o_ = strip_all_casts(n_.get('obj'))
+                        if isinstance(o_, dict) and o_.get('k') == 'This' and not hw[n_['callee']] <= hw[m_['name']]:
+                            hw[m_['name']] |= hw[n_['callee']]
+                            changed = True
         for B in methods_of(F, cls):
             if B.get('kind') in ('ctor', 'dtor'):
                 continue
@@ -381,7 +403,7 @@ def K3(F, rep, R, FL, ws, classes=None):
             writes_any = False
             bad = None
             for evs, out in paths:
-                we = field_write_events(evs, set(w['fields']))
+                we = field_write_events(evs, set(w['fields']), hw)
                 if not we:
                     continue
                 writes_any = True
